@@ -326,7 +326,8 @@ func (p *printer) expr1(e *Expr) {
 		p.sb.WriteString(e.Name)
 		p.sp(" ")
 	case KNil:
-		p.sb.WriteString("()")
+		// the empty expression: "()" — or an empty literal, which means the same
+		p.sb.WriteString([]string{"()", "()", "''", "\"\""}[p.v(4)])
 		p.sp(" ")
 	case KPred:
 		p.sb.WriteString("&")
